@@ -1071,7 +1071,7 @@ func operandClass(info *rvref.Info, w uint32) string {
 }
 
 func (e *Engine) Describe(prop string) core.Description {
-	d := core.Description{QuickRuns: 3000}
+	d := core.Description{QuickRuns: 8000}
 	base := "Each run = one RV64IMA program of 1-48 instructions assembled from weighted templates (ALU reg/imm with negative and boundary immediates, all shift forms with boundary amounts, W-forms, M extension, loads/stores of all widths steered into two small data windows so accesses overlap earlier ones of different width, straddle the end of the program image or touch untouched memory, AMO/LR/SC, CSR ops incl. numbers >= 0x800, forward/backward/next-instruction branches and jumps, jalr, fence/ecall/ebreak; 1-3 code blocks with gaps), built into an ELF image and loaded by the real pipeline; an initial machine state (64-bit registers, CSRs, a background byte function for all memory) of which a random part is pre-known to the emulator; then up to 200 (thorough: 600) events: step, operator register / memory / pc writes between steps. Every provider request is an event answered from the reference machine. "
 	switch prop {
 	case "C03":
